@@ -151,6 +151,9 @@ class OracleMixin:
             self.sit["cancel_seen_in_cb_after_abandoned_flush"] += 1
         if t.seen > t.owed:
             self.violate("C06.bystander", f"task {t.tid} observed a CancelledError ({where}) it was not owed (seen {t.seen}, owed {t.owed})")
+            if where == "cb":
+                # "plain and coroutine callbacks are both run to completion": a cancellation nobody owes this task lands inside its callback
+                self.violate("C03.cb_undisturbed", f"a callback of task {t.tid} was hit by a CancelledError the task was not owed (seen {t.seen}, owed {t.owed})")
             if t.pool.group_cancels:
                 self.violate("C07.siblings", f"task {t.tid} observed a CancelledError ({where}) it was not owed, in a pool where groups were cancelled")
             if t.pool.stop_calls:
